@@ -191,7 +191,14 @@ where
             // tag is in the future; if it's "multiple", keep sending all tags in
             // between where we are now and payload.delivery_tag
             if payload.multiple {
-                let ret = (self.to_confirm)(self.parent.expected);
+                // a tag that was already confirmed individually keeps that outcome;
+                // the multiple only covers the tags nobody has confirmed yet
+                let tag = self.parent.expected;
+                let ret = self
+                    .parent
+                    .out_of_order
+                    .remove(&tag)
+                    .unwrap_or_else(|| (self.to_confirm)(tag));
                 self.parent.expected += 1;
                 return Some(ret);
             } else {
